@@ -199,6 +199,16 @@ def _shapes(world, r):
                                  lambda a: ([a] + extra(), {}), wrong=True)
             yield ("!nonint", lambda I, st: construct(
                 I, st, c, [NonInt()] + extra(), {}), dec)
+        if r.hasparam:
+            # a parameter of another type (a float, a numeric string) is
+            # refused, not converted into some scene / group number
+            def bp(I, st):
+                out = []
+                for (a, s1) in build_address(I, world, st, "GearShort",
+                                             "dest"):
+                    out += construct(I, s1, c, [a, NonInt()], {})
+                return out
+            yield ("!param=nonint", bp, dec)
     elif fam == "DAPC":
         yield from with_dest(GEAR_DESTS, lambda a: ([a, IvInt("power")], {}))
         for lit in ("OFF", "MASK"):
